@@ -3,6 +3,7 @@ package main
 import (
 	"bytes"
 	"fmt"
+	"io"
 	"os"
 	"path/filepath"
 	"strings"
@@ -152,6 +153,32 @@ func c14SourcePhase(r *core.Run) {
 			}
 			tw.Wait()
 			r.Eval(6)
+			// HTML renderings of the shared snapshot at the same time as well, then the snapshot is compared with a
+			// fresh scan of the same bytes: rendering leaves every field of the snapshot alone, the detected roots
+			// and modules (a "go run" directory is a pseudo module) included
+			var hw sync.WaitGroup
+			for k := 0; k < 4; k++ {
+				hw.Add(1)
+				go func(k int) {
+					defer hw.Done()
+					if k%2 == 0 {
+						_ = want.ToHTML(io.Discard, "")
+					} else {
+						_ = want.Aggregate(stack.AnyValue).ToHTML(io.Discard, "")
+					}
+				}(k)
+			}
+			hw.Wait()
+			r.Eval(4)
+			if fresh, _, _, _ := scanAll(in, shared); fresh != nil {
+				if d := mon.DiffSnapshot(fresh, want, mon.EqOpt{}); d != "" {
+					r.Violation("snapshot-mutated-by-rendering", fmt.Sprintf("round %d: after console and HTML renderings the snapshot differs from a fresh scan of the same bytes: %s", round, d), "conc", map[string]any{"round": round, "input": string(in)})
+					return
+				}
+				if len(fresh.LocalGomods) != 0 {
+					r.Count("source_phase_snapshots_with_local_modules", 1)
+				}
+			}
 			if tbad.Load() != 0 {
 				r.Violation("concurrent-console-rendering", fmt.Sprintf("round %d: concurrent console renderings of one shared snapshot (typed arguments present) differ from the rendering done alone", round), "conc", map[string]any{"round": round, "input": string(in)})
 				return
